@@ -141,6 +141,14 @@ func (o *objectValidator) checkItemsMustBeTypeArray(res *Result, val map[string]
 		return
 	}
 
+	if len(o.Properties) == 0 && len(o.PatternProperties) == 0 && o.AdditionalProperties != nil {
+		// the schema of this object declares no member of its own and explicitly allows any other:
+		// it is a map of named things (definitions, shared parameters and responses, headers,
+		// security definitions) or free-form data (a vendor extension), and a member that happens
+		// to be called "items" is a name, not the array keyword
+		return
+	}
+
 	_, itemsKeyFound := val[jsonItems]
 	if !itemsKeyFound {
 		return
